@@ -24,10 +24,29 @@ type ModSet struct {
 	sync       bool         // channel operations / goroutines
 	storeMut   bool         // mutates an abstract storage.Store (Put/Delete/...)
 	why        string       // first reason for all=true
+	nondet     bool         // result may differ between two calls with equal arguments and heap
+	readsHeap  bool         // reads memory other than its own locals
+	allocates  bool         // allocates objects (results of reference sort may be fresh)
+	readsAll   bool
+	readSorts  map[string]bool // heap sorts read (when !readsAll)
 }
 
 func newModSet() *ModSet {
-	return &ModSet{sorts: map[string]bool{}, fields: map[int]bool{}, elems: map[string]bool{}, freeVars: map[int]bool{}, callsParam: map[int]bool{}}
+	return &ModSet{sorts: map[string]bool{}, fields: map[int]bool{}, elems: map[string]bool{}, freeVars: map[int]bool{}, callsParam: map[int]bool{}, readSorts: map[string]bool{}}
+}
+
+// heapArgs: the heap sorts a deterministic function's result may depend on.
+func (m *ModSet) heapArgs() []string {
+	if !m.readsHeap {
+		return nil
+	}
+	var out []string
+	for _, s := range heapSorts {
+		if m.readsAll || m.readSorts[s] {
+			out = append(out, s)
+		}
+	}
+	return out
 }
 
 func (m *ModSet) size() int {
@@ -49,6 +68,13 @@ func (m *ModSet) merge(o *ModSet) {
 		m.why = o.why
 	}
 	m.all = m.all || o.all
+	m.nondet = m.nondet || o.nondet
+	m.readsHeap = m.readsHeap || o.readsHeap
+	m.readsAll = m.readsAll || o.readsAll
+	for k := range o.readSorts {
+		m.readSorts[k] = true
+	}
+	m.allocates = m.allocates || o.allocates
 	m.maps = m.maps || o.maps
 	m.sync = m.sync || o.sync
 	m.storeMut = m.storeMut || o.storeMut
@@ -361,6 +387,13 @@ func (p *Program) externalArgMods(ms *ModSet, args []ssa.Value) {
 func (p *Program) mergeCallee(ms *ModSet, fn *ssa.Function, mc *ssa.MakeClosure, args []ssa.Value) {
 	fn = p.unwrapSynthetic(fn)
 	if fn.Blocks == nil || !p.isDatamon(fn) {
+		if !isDetExternal(fn) {
+			ms.nondet = true
+		}
+		if argsReadHeap(args) {
+			ms.readsHeap = true
+			ms.readsAll = true
+		}
 		if isPureExternal(fn) {
 			return
 		}
@@ -415,6 +448,9 @@ func (p *Program) callMods(ms *ModSet, c *ssa.CallCommon) {
 		}
 		key := ifaceKey(c.Value.Type(), c.Method.Name())
 		if ext, ok := p.externs[key]; ok {
+			ms.nondet = true
+			ms.readsHeap = true
+			ms.readsAll = true
 			p.externMods(ms, ext, c)
 			return
 		}
@@ -429,6 +465,9 @@ func (p *Program) callMods(ms *ModSet, c *ssa.CallCommon) {
 		}
 		if !isDatamonType(c.Value.Type()) || len(impls) == 0 {
 			// may be implemented outside datamon
+			ms.nondet = true
+			ms.readsHeap = true
+			ms.readsAll = true
 			p.externalArgMods(ms, c.Args)
 		}
 		return
@@ -560,9 +599,43 @@ func (p *Program) instrMods(ms *ModSet, ins ssa.Instruction) {
 		ms.maps = true
 	case *ssa.Send, *ssa.Select:
 		ms.sync = true
+		ms.nondet = true
 	case *ssa.UnOp:
 		if x.Op == token.ARROW {
 			ms.sync = true
+			ms.nondet = true
+		}
+		if x.Op == token.MUL && localRoot(x.X) == nil {
+			ms.readsHeap = true
+			fields, elems := map[int]bool{}, map[string]bool{}
+			if s := typeLeaves(x.Type(), fields, elems); s != "" {
+				ms.readSorts[s] = true
+			}
+			for id := range fields {
+				if v := fieldByID[id]; v != nil {
+					ms.readSorts[sortOf(v.Type())] = true
+				}
+			}
+			for s := range elems {
+				ms.readSorts[s] = true
+			}
+		}
+	case *ssa.Alloc:
+		if x.Heap {
+			ms.allocates = true
+		}
+	case *ssa.MakeSlice, *ssa.MakeMap, *ssa.MakeChan, *ssa.MakeClosure:
+		ms.allocates = true
+	case *ssa.Lookup:
+		if _, isMap := x.X.Type().Underlying().(*types.Map); isMap {
+			ms.readsHeap = true
+			ms.readsAll = true
+			ms.nondet = true // map contents are not part of the pure-function arguments
+		}
+	case *ssa.Next:
+		if !x.IsString {
+			ms.nondet = true
+			ms.readsHeap = true
 		}
 	case *ssa.Call:
 		p.callMods(ms, &x.Call)
@@ -570,8 +643,88 @@ func (p *Program) instrMods(ms *ModSet, ins ssa.Instruction) {
 		p.callMods(ms, &x.Call)
 	case *ssa.Go:
 		ms.sync = true
+		ms.nondet = true
 		p.callMods(ms, &x.Call)
 	}
+}
+
+var detPkgs = []string{"fmt", "errors", "strings", "strconv", "path", "path/filepath", "unicode", "unicode/utf8", "bytes", "math",
+	"sort", "regexp", "hash/crc32", "encoding/hex", "encoding/binary", "go.uber.org/zap", "go.uber.org/zap/zapcore",
+	"github.com/oneconcern/datamon/pkg/dlogger", "github.com/oneconcern/datamon/pkg/errors"}
+
+func isDetExternal(fn *ssa.Function) bool {
+	path := ""
+	if fn.Pkg != nil {
+		path = fn.Pkg.Pkg.Path()
+	} else if o := fn.Object(); o != nil && o.Pkg() != nil {
+		path = o.Pkg().Path()
+	}
+	for _, pp := range detPkgs {
+		if path == pp {
+			return true
+		}
+	}
+	return false
+}
+
+func argsReadHeap(args []ssa.Value) bool {
+	for _, a := range args {
+		switch sortOf(a.Type()) {
+		case "Ref", "Slice":
+			if localRoot(a) != nil {
+				continue // e.g. the varargs array of fmt.Sprint
+			}
+			return true
+		}
+	}
+	return false
+}
+
+// valueLike: results of this type carry no object identity.
+func valueLike(t types.Type) bool {
+	switch u := t.Underlying().(type) {
+	case *types.Basic:
+		return u.Kind() != types.UnsafePointer
+	case *types.Struct:
+		for i := 0; i < u.NumFields(); i++ {
+			if !valueLike(u.Field(i).Type()) {
+				return false
+			}
+		}
+		return true
+	case *types.Array:
+		return valueLike(u.Elem())
+	case *types.Tuple:
+		for i := 0; i < u.Len(); i++ {
+			if !valueLike(u.At(i).Type()) {
+				return false
+			}
+		}
+		return true
+	case *types.Interface:
+		// error results of deterministic functions: same inputs, same (nil-ness and) value
+		return true
+	}
+	return false
+}
+
+// isDet: calling fn twice with equal arguments in equal heaps gives equal results.
+func (p *Program) isDet(fn *ssa.Function) bool {
+	fn = p.unwrapSynthetic(fn)
+	ms := p.mods[fn]
+	if ms == nil || fn.Blocks == nil {
+		return false
+	}
+	if ms.nondet || ms.all || ms.sync || ms.storeMut || ms.maps || len(ms.sorts)+len(ms.fields)+len(ms.elems)+len(ms.freeVars)+len(ms.callsParam) > 0 {
+		return false
+	}
+	if len(fn.FreeVars) > 0 {
+		return false
+	}
+	if ms.allocates && !valueLike(fn.Signature.Results()) {
+		return false
+	}
+	return true
 }
 
 // computeMods runs the summary fixpoint over all built datamon functions.
@@ -597,7 +750,8 @@ func (p *Program) computeMods() {
 					p.instrMods(ms, ins)
 				}
 			}
-			if ms.size() != p.mods[fn].size() || ms.all != p.mods[fn].all {
+			if ms.size() != p.mods[fn].size() || ms.all != p.mods[fn].all || ms.nondet != p.mods[fn].nondet || ms.readsHeap != p.mods[fn].readsHeap || ms.allocates != p.mods[fn].allocates ||
+				ms.readsAll != p.mods[fn].readsAll || len(ms.readSorts) != len(p.mods[fn].readSorts) {
 				changed = true
 			}
 			p.mods[fn] = ms
@@ -666,6 +820,9 @@ func (m *ModSet) setAll(why string) {
 		m.all = true
 		m.why = why
 	}
+	m.nondet = true
+	m.readsHeap = true
+	m.readsAll = true
 }
 
 func (m *ModSet) String() string {
@@ -691,6 +848,15 @@ func (m *ModSet) String() string {
 	}
 	if m.sync {
 		parts = append(parts, "sync")
+	}
+	if m.nondet {
+		parts = append(parts, "nondet")
+	}
+	if m.readsHeap {
+		parts = append(parts, "readsHeap")
+	}
+	if m.allocates {
+		parts = append(parts, "allocates")
 	}
 	if m.storeMut {
 		parts = append(parts, "store")
